@@ -587,7 +587,23 @@ func (b *Buffer) ensureNativeDirection() {
 	if (direction.isHorizontal() && direction != horizDir && horizDir != 0) ||
 		(direction.isVertical() && direction != TopToBottom) {
 
+		// a run may start with marks (which belong to the text before it) : once the
+		// graphemes are reversed they follow the first base of the run, which is from
+		// there on shaped with them, and would not be if the run was cut between them
+		lead := 0
+		for lead < len(b.Info) && b.Info[lead].isContinuation() {
+			lead++
+		}
+		second := lead + 1
+		for second < len(b.Info) && b.Info[second].isContinuation() {
+			second++
+		}
+
 		reverseGraphemes(b)
+
+		if n := len(b.Info); lead != 0 && lead < n {
+			b.unsafeToBreak(n-second, n)
+		}
 
 		// the text before the run is now the one after it
 		// (both contexts are stored starting by the rune closest to the run)
